@@ -123,7 +123,11 @@ def int_to_str(ip, n):
     ip.ctx.assume(z3.Implies(z3.And(t >= 10, t <= 99), L == 2))
     ip.ctx.assume(z3.Implies(z3.And(t >= 100, t <= 999), L == 3))
     ip.ctx.assume(z3.Implies(t >= 1000, L >= 4))
-    ip.ctx.assume(z3.InRe(s, INT_OK))          # language fact (decides later tests on the text without the solver)
+    # language fact (decides later tests on the text without the solver): tight when the value range is known
+    if not ip.ctx.feasible(z3.Not(z3.And(t >= 0, t <= 999))):
+        ip.ctx.assume(z3.InRe(s, z3.Union(z3.Re('0'), z3.Concat(z3.Range('1', '9'), z3.Loop(DIGIT, 0, 2)))))
+    else:
+        ip.ctx.assume(z3.InRe(s, INT_OK))
     ip.ctx.assume(z3.Implies(t >= 0, z3.InRe(s, DIGITS1)))
     ip.ctx.assume(z3.Implies(t >= 0, z3.StrToInt(s) == t))
     ip.ctx.assume(z3.Implies(t < 0, z3.StrToInt(z3.SubString(s, 1, z3.Length(s) - 1)) == -t))
@@ -502,7 +506,10 @@ def subscript(ip, obj, idx, node):
         i = unopt(ip, idx, node)
         it = lift(i)
         ip.safe('string index out of range', z3.And(it >= -n, it < n), IndexError, node)
-        return wrap(z3.SubString(obj.t, norm_index(it, n), 1))
+        ch = wrap(z3.SubString(obj.t, norm_index(it, n), 1))
+        if isinstance(ch, SV):
+            ip.hooks.setdefault(('strlen_bound',), {})[ch.t.get_id()] = 1
+        return ch
     if isinstance(obj, SymList):
         n = z3.Length(obj.t)
         if isinstance(idx, slice):
@@ -726,6 +733,16 @@ def str_lower(ip, s, upper=False):
         return s.upper() if upper else s.lower()
     fn = _upper_fn if upper else _lower_fn
     st = z3.simplify(s.t)
+    memo = ip.hooks.setdefault(('case_memo',), {})
+    mkey = (st.get_id(), upper)
+    if mkey in memo:
+        return memo[mkey]
+    res = _str_case(ip, s, st, fn, upper)
+    memo[mkey] = res
+    return res
+
+
+def _str_case(ip, s, st, fn, upper):
     if z3.is_app(st) and st.decl().kind() == z3.Z3_OP_SEQ_CONCAT:
         # case mapping is a homomorphism on ASCII (A-STR): distribute over the concatenation
         parts = [str_lower(ip, wrap(st.arg(i)), upper) for i in range(st.num_args())]
@@ -751,6 +768,11 @@ def str_lower(ip, s, upper=False):
             chars.append(m)
         r = z3.String(fresh_name('lowered'))
         ip.ctx.assume(r == (z3.Concat(*chars) if len(chars) > 1 else chars[0]))
+        if L is not None:
+            img = case_image(L, upper)
+            if img is not None:
+                ip.ctx.assume(z3.InRe(r, img))
+        ip.hooks.setdefault(('strlen_bound',), {})[r.get_id()] = bound
         return SV(r)
     # already free of the other case on this path?  then the mapping is the identity (no uninterpreted term needed)
     if L is not None:
